@@ -97,10 +97,14 @@ def compose_desc(draw, max_top=3, max_depth=3):
     if layered:
         bp = draw(gen.release_desc(with_internal=False))
     comp = draw(gen.compose_section_desc(id_prefix=""))
-    if draw(st.integers(0, 4)):
+    how = draw(st.integers(0, 5))
+    if how >= 2:
         comp["id"] = ref_compose_id(release, bp, comp)
-    else:
+    elif how == 1:
         comp["id"] = draw(st.sampled_from(["x", "Foo-1.0", "a b", "é"])) + comp["id"]
+    else:
+        comp["id"] = "%s-%s-%s%s" % (release["short"], release["version"], comp["date"], draw(st.sampled_from(
+            [".hotfix.2", ".production.0", ".x", "-Server", ".1.2.3", " (final)", ".N.1", ".nightlyx.1"])))
     return {"release": release, "layered": layered, "base_product": bp, "compose": comp,
             "variants": draw(forest_desc(max_top=max_top, max_depth=max_depth))}
 
